@@ -43,10 +43,11 @@ func newSnapshot(lastFrame int) (*cptvframe.Frame, error) {
 	if time.Since(previousSnapshotTime) < allowedSnapshotPeriod {
 		return nil, nil
 	}
+	processor := currentProcessor()
 	if processor == nil {
 		return nil, errors.New("reading from camera has not started yet")
 	}
-	if lastFrame >= 0 && uint32(lastFrame) == processor.CurrentFrame {
+	if lastFrame >= 0 && uint32(lastFrame) == processor.FrameNumber() {
 		return nil, errors.New("no new frames yet")
 	}
 
@@ -64,12 +65,13 @@ func newSnapshotRecording() error {
 	mu.Lock()
 	defer mu.Unlock()
 
+	processor := currentProcessor()
 	if processor == nil {
 		log.Println("no motion processor so can't make snapshot")
 		return errors.New("reading from camera has not started yet")
 	}
 
-	processor.StartSnapshot = true
+	processor.RequestSnapshotRecording()
 	return nil
 }
 
@@ -77,7 +79,7 @@ func newSnapshotRecording() error {
 func snapshotRecordingTriggers(window window.Window) {
 
 	// Wait for motion processor to start
-	for processor == nil {
+	for currentProcessor() == nil {
 		time.Sleep(time.Second)
 	}
 
